@@ -358,6 +358,8 @@ class OptimizerBounds(Contract):
                     # the trial point of the least_squares stub must not hit the guard value either
                     x1 = b.S.named(f"x!1_{nn}")
                     S.require(L.not_(L.eq(L.fn("exp", x1), 1.0)), "trial point is not the guard value")
+                    xp = b.S.named(f"x!post0_{nn}")
+                    S.require(L.not_(L.eq(L.fn("exp", xp), 1.0)), "trial point is not the guard value")
                 elif i >= 2:
                     p.vary = False
             elif v == "fixed_and_expr":
@@ -371,7 +373,7 @@ class OptimizerBounds(Contract):
     def call(self, S, case, b):
         shim.LINALG_HOOKS["svd"] = _svd
         try:
-            return run_optimizer(S, b, S.symbolic, n_evals=2, create_result=True, jac=True)
+            return run_optimizer(S, b, S.symbolic, n_evals=2, create_result=True, jac=True, post_evals=1)
         finally:
             shim.LINALG_HOOKS.pop("svd", None)
 
